@@ -189,7 +189,14 @@ def vector_run(eng, n, path, scenario):
     op.problem = 'P'
     op.linform = lambda e: (eng.apply('lin', SR.lift(e.time_interval[0]), SR.lift(e.time_interval[1]),
                                       SR.lift(e.space_interval[0]), SR.lift(e.space_interval[1])), [])
-    A = elems_for(eng, gamma, cells, tm, [(k % 3, (3 * k) % 16) for k in range(n)])
+    # elements of different widths in an order that is neither sorted nor an involution away from sorted
+    wide = slsym.space_leaves(gamma, 1) + slsym.space_leaves(gamma, 2)
+    mixed = []
+    for k in range(n):
+        src = (cells, wide)[k % 2 == 1] if k % 3 else slsym.space_leaves(gamma, 2)
+        mixed.append(src[(5 * k + 1) % len(src)])
+    A = [slsym.Elem(SR.const(0) if k % 3 else tm, tm if k % 3 else SR.const(1), slsym.exact(c_[0]), slsym.exact(c_[1]), c_[2])
+         for k, c_ in enumerate(mixed)]
     B = elems_for(eng, gamma, cells, tm, [((k + 1) % 3, (5 * k + 1) % 16) for k in range(n)])
     bad = []
 
@@ -337,7 +344,12 @@ def replay(rp):
                 op.cache_dir = None if scenario == 'nocache' else tmp
                 op.problem = 'P'
                 op.linform = lambda e: (hash((e.time_interval, e.space_interval)) % 1000 / 7.0, [])
-                A = mk([(k % 3, (3 * k) % 16) for k in range(n)])
+                wide = slsym.space_leaves(gamma, 1) + slsym.space_leaves(gamma, 2)
+                mixed = []
+                for k in range(n):
+                    src = (cells, wide)[k % 2 == 1] if k % 3 else slsym.space_leaves(gamma, 2)
+                    mixed.append(src[(5 * k + 1) % len(src)])
+                A = [slsym.Elem(0.0 if k % 3 else tm, tm if k % 3 else 1.0, c_[0], c_[1], c_[2]) for k, c_ in enumerate(mixed)]
                 B = mk([((k + 1) % 3, (5 * k + 1) % 16) for k in range(n)])
 
                 def wrong(vec, E):
